@@ -161,8 +161,10 @@ class Ctx:
         for m in self.minima:
             if m["got"] < m["min"]:
                 raise Machinery("vacuity guard: %s = %d < %d" % (m["what"], m["got"], m["min"]))
-        os.makedirs(os.path.join(V, "evidence"), exist_ok=True)
-        os.makedirs(os.path.join(V, "replays"), exist_ok=True)
+        EV = os.path.join(V, "evidence") if not vlib.ALT else os.path.join(vlib.WORK, "alt-evidence")
+        RP = os.path.join(V, "replays") if not vlib.ALT else os.path.join(vlib.WORK, "alt-replays", os.path.basename(vlib.BIN))
+        os.makedirs(EV, exist_ok=True)
+        os.makedirs(RP, exist_ok=True)
         lines = []
         for k in self.known:
             lines.append("KNOWN-FINDING: property=%s %s (%d cases this run)" % (self.pid, k["desc"], k.get("_n", 0)))
@@ -172,7 +174,7 @@ class Ctx:
             if key in seen and seen[key] >= 3: continue
             seen[key] = seen.get(key, 0) + 1
             n = len([l for l in lines if l.startswith("VIOLATION")])
-            p = os.path.join(V, "replays", "%s-%d.json" % (self.pid, n))
+            p = os.path.join(RP, "%s-%d.json" % (self.pid, n))
             with open(p, "w") as f: json.dump(v, f, indent=1)
             lines.append("VIOLATION property=%s replay=%s" % (self.pid, p))
             lines.append("  # %s: %s | %s | %s" % (v.get("what"), v.get("text", "")[:200], json.dumps(v.get("cfg")), (v.get("detail") or "").replace("\n", " / ")[:600]))
@@ -186,7 +188,7 @@ class Ctx:
         ev = dict(property_id=self.pid, tier=self.tier, seed=self.seed, level="model_checking", coverage=cov,
                   assumptions=self.assumptions, wall_s=round(wall, 1), violations=len(self.violations),
                   known_findings=[k["id"] for k in self.known])
-        with open(os.path.join(V, "evidence", self.pid + ".json"), "w") as f: json.dump(ev, f, indent=1)
+        with open(os.path.join(EV, self.pid + ".json"), "w") as f: json.dump(ev, f, indent=1)
         for l in lines: print(l)
         print("%s tier=%s seed=%d: states=%d transitions=%d oracle_records=%d drift=%d real_calls=%d impl_traces=%d violations=%d known=%d wall=%.0fs"
               % (self.pid, self.tier, self.seed, self.states, self.transitions, self.records, self.drift,
@@ -690,4 +692,43 @@ def plan_C05(ctx):
     ctx.nontrivial = ctx.records
     ctx.need("real message observations judged by TLC", ctx.records, 3000)
 
-PLANS = dict(C05=plan_C05, C19=plan_C19, C09=plan_C09, C14=plan_C14, C18=plan_C18, selftest=selftest, C10=plan_C10, C16=plan_C16, C01=plan_C01, C02=plan_C02, C03=plan_C03, C04=plan_C04, C06=plan_C06, C07=plan_C07, C11=plan_C11, C12=plan_C12, C13=plan_C13)
+def plan_C08(ctx):
+    ctx.extra["rule"] = ("GenFLine.tla: request lines (all 14 method names, lower-cased variants, arbitrary tokens x URIs x versions), status lines "
+        "(version in 4 letter-case patterns x codes incl. 000 (thorough: all 1000) x reasons: empty / one token / with SP HT inside) x CRLF / CR / "
+        "LF terminators x start offsets {0,3} x one-call and two-call schedules, with the intended decomposition by construction; near-misses "
+        "(double SP, HT, missing token, leading SP, < 14 bytes, non-digit / 2- / 4-digit status) with 'rejected or more'. TLC checks FLineDecl on "
+        "the transcription (FLine.tla) for every line and, as a Stream instance, ResumeEqFresh/Stable/OffsSane over steered atom strings; every "
+        "record is executed on the real ParseFLine.")
+    ctx.tlc("MC_GenFLine", "MC_GenFLine_rep.cfg" if ctx.quick else "MC_GenFLine_all.cfg", workers=8, min_records=1000, timeout=3000)
+    ctx.tlc("MC_GenFLine", "MC_GenFLine_code000.cfg", workers=4, min_records=100)
+    for c in (["rpl", "req"] if ctx.quick else ["rpl_x", "req_x", "tok_x", "bad_x"]):
+        ctx.tlc("MC_FLine", "MC_FLine_%s.cfg" % c, workers=8, min_records=1000, timeout=3000)
+    ctx.nontrivial = ctx.records
+    ctx.need("first lines executed on the real parser", ctx.records, 10000)
+
+def plan_C20(ctx):
+    ctx.extra["rule"] = ("IPAddr.tla: IP4Prefix / ContainsIP4 transcribed; Decl: IsDottedQuad defined directly (four groups, 1-3 digits, <= 255), "
+        "ContainsDecl (found <=> some substring is a dotted quad; the reported span is one and its groups are the returned bytes), PrefixDecl "
+        "(accepts exactly texts starting with a group sequence, stops at the first byte that cannot extend it, end / digit / other indication). "
+        "TLC enumerates every string over {1,2,5,6,.,x} (<= 7/8), {2,.,x} (<= 10/11), {2,5,6,.} (<= 9), {0,2,.} (<= 10), checks the Decl "
+        "predicates on the model and emits every (string, result); each is executed on the real functions (drift).")
+    cfgs = ["b6", "b3", "b4", "bz"] if ctx.quick else ["b6x", "b3x", "b4", "bz", "b6", "b3"]
+    for c in cfgs:
+        r = vlib.run_tlc("MC_IP4", "MC_IP4_%s.cfg" % c, workers=8, timeout=3000)
+        if not r["ok"]: raise Machinery("TLC failed on MC_IP4/%s:\n%s" % (c, r["tail"]))
+        ctx.states += r["distinct"]; ctx.transitions += r["generated"]
+        drift_out = os.path.join(r["dir"], "drift.ndjson")
+        rp = vlib.replay(r["out"], drift_out=drift_out)
+        x = rp["extra"]; ctx.records += x["records"]; ctx.impl_traces += x["records"]; ctx.drift += x["drift"]
+        ctx.tlc_runs.append(dict(module="MC_IP4", cfg=c, states=r["distinct"], records=x["records"], drift=x["drift"], tlc_wall_s=round(r["wall"], 1)))
+        for s_ in (rp.get("samples") or [])[:2]:
+            if len(ctx.samples) < 12: ctx.samples.append(dict(source="TLC MC_IP4/%s replayed on the code" % c, case=s_))
+        if x["drift"]:
+            ctx.notes.append("drift on %d records of MC_IP4/%s, judged by TLC" % (x["drift"], c))
+            ctx.judge("Judge_IP4", drift_out)
+        if c in ("b4", "bz"): audit_sample(ctx, r["out"], 997 if ctx.quick else 199, module="Judge_IP4")
+        shutil.rmtree(r["dir"], ignore_errors=True)
+    ctx.nontrivial = ctx.records
+    ctx.need("strings executed on the real IPv4 functions", ctx.records, 100000)
+
+PLANS = dict(C08=plan_C08, C20=plan_C20, C05=plan_C05, C19=plan_C19, C09=plan_C09, C14=plan_C14, C18=plan_C18, selftest=selftest, C10=plan_C10, C16=plan_C16, C01=plan_C01, C02=plan_C02, C03=plan_C03, C04=plan_C04, C06=plan_C06, C07=plan_C07, C11=plan_C11, C12=plan_C12, C13=plan_C13)
